@@ -20,7 +20,7 @@ type famRun struct {
 
 var defaultConsts = map[string]string{
 	"MaxN": "2", "MaxAr": "3", "Rots2": "{0}", "Rots3": "{0}", "Rots4": "{0}", "Rots": "{0}",
-	"MaxLen": "2", "MaxParams": "3", "MaxOuter": "2", "MaxSeq": "2", "MaxSeqDep": "2", "MemDeps": "\"none\"", "MemRots": "{0}",
+	"MaxLen": "2", "MaxParams": "3", "MaxOuter": "2", "MaxOuterLen": "0", "LenRots": "{}", "MaxSeq": "2", "MaxSeqDep": "2", "MemDeps": "\"none\"", "MemRots": "{0}",
 }
 
 const mcInvariants = "ClausesHold Replayable NoCallAfterFailure StagesInOrderOnce ErrorOnlyFromFailure MemInvariants PlumbInvariants StringInvariants Export"
